@@ -35,6 +35,32 @@ Definition PI_C : float := 0x1.921fb54442d18p+1.    (* pi = 3.141592653589793;  
 
 Definition of_Z (z : Z) : float := of_uint63 (Uint63.of_Z z).
 
+(* ---- the float statements of cgauleg_pywrap.c, one definition per C assignment.  The int
+   variables i, j, npts occur in them only converted to double (exact below 2^53): they are float
+   arguments here ([nf] = (double) npts).  harness/props/c17_translate.py re-translates the C
+   statements on every run and checks  translated = these definitions  by [reflexivity]. *)
+Definition xm_of (x1 x2 : float) : float := (x1 + x2) / 2.           (* xm = (x1 + x2)/2.0;              *)
+Definition xl_of (x1 x2 : float) : float := (x2 - x1) / 2.           (* xl = (x2 - x1)/2.0;              *)
+Definition Z1_INIT : float := 0.                                     (* z1 = 0.0;                        *)
+Definition PP_INIT : float := 0.                                     (* double ... pp=0 ...              *)
+Definition P1_INIT : float := 1.                                     (* p1 = 1.0;                        *)
+Definition P2_INIT : float := 0.                                     (* p2 = 0.0;                        *)
+Definition leg_step (j z p2 p3 : float) : float :=                   (* p1 = ((2.0*j-1.0)*z*p2-(j-1.0)*p3)/j; *)
+  ((2 * j - 1) * z * p2 - (j - 1) * p3) / j.
+Definition pp_of (nf z p1 p2 : float) : float :=                     (* pp = npts*(z*p1 - p2)/(z*z -1.); *)
+  nf * (z * p1 - p2) / (z * z - 1).
+Definition z_next (z1 p1 pp : float) : float := z1 - p1 / pp.        (* z=z1 - p1/pp;                    *)
+Definition absdiff (z z1 : float) : float := abs (z - z1).           (* abszdiff = fabs(z-z1);           *)
+Definition x_lo (xm xl z : float) : float := xm - xl * z.            (* x[i-1] = xm - xl*z;              *)
+Definition x_hi (xm xl z : float) : float := xm + xl * z.            (* x[npts+1-i-1] = xm + xl*z;       *)
+Definition w_of (xl z pp : float) : float :=                         (* w[i-1] = 2.0*xl/((1.-z*z)*pp*pp); *)
+  2 * xl / ((1 - z * z) * pp * pp).
+Definition m_of (npts : Z) : Z := ((npts + 1) / 2)%Z.                (* m = (npts + 1)/2;                *)
+Definition reject_npts (npts : Z) : bool := (npts <=? 0)%Z.           (* util.py: if npts <= 0: raise ValueError *)
+(* the array positions written for root i (1-based): x[i-1], x[npts+1-i-1] *)
+Definition idx_lo (i : Z) : Z := (i - 1)%Z.
+Definition idx_hi (npts i : Z) : Z := (npts + 1 - i - 1)%Z.
+
 (* lines 59-66: p1=1; p2=0; for j=1..npts { p3=p2; p2=p1; p1=((2.0*j-1.0)*z*p2-(j-1.0)*p3)/j; }
    [j] is the int loop counter converted to double (exact) *)
 Fixpoint legendre (cnt : nat) (j z p1 p2 : float) : float * float :=
@@ -43,15 +69,15 @@ Fixpoint legendre (cnt : nat) (j z p1 p2 : float) : float * float :=
   | S c =>
     let p3 := p2 in
     let p2' := p1 in
-    let p1' := ((2 * j - 1) * z * p2' - (j - 1) * p3) / j in
+    let p1' := leg_step j z p2' p3 in
     legendre c (j + 1) z p1' p2'
   end.
 
 (* lines 59-71, one pass of the loop body: returns (z, z1, pp) after the pass *)
 Definition newton_step (n : nat) (nf z : float) : float * float * float :=
-  let '(p1, p2) := legendre n 1 z 1 0 in
-  let pp := nf * (z * p1 - p2) / (z * z - 1) in
-  (z - p1 / pp, z, pp).
+  let '(p1, p2) := legendre n 1 z P1_INIT P2_INIT in
+  let pp := pp_of nf z p1 p2 in
+  (z_next z p1 pp, z, pp).
 
 (* repaired code:  do { body } while (fabs(z-z1) > EPS);   explicit fuel *)
 Fixpoint newton_do (fuel n : nat) (nf z : float) : option (float * float * float) :=
@@ -59,12 +85,12 @@ Fixpoint newton_do (fuel n : nat) (nf z : float) : option (float * float * float
   | O => None
   | S f =>
     let '(z', z1', pp') := newton_step n nf z in
-    if EPS <? abs (z' - z1') then newton_do f n nf z' else Some (z', z1', pp')
+    if EPS <? absdiff z' z1' then newton_do f n nf z' else Some (z', z1', pp')
   end.
 
 (* unchanged code:  abszdiff = fabs(z-z1); while (abszdiff > EPS) { body } *)
 Definition newton_while (fuel n : nat) (nf z z1 pp : float) : option (float * float * float) :=
-  if EPS <? abs (z - z1) then newton_do fuel n nf z else Some (z, z1, pp).
+  if EPS <? absdiff z z1 then newton_do fuel n nf z else Some (z, z1, pp).
 
 Definition newton (orig : bool) (fuel n : nat) (nf z z1 pp : float) :=
   if orig then newton_while fuel n nf z z1 pp else newton_do fuel n nf z.
@@ -87,13 +113,14 @@ Fixpoint roots (orig : bool) (fuel n : nat) (nf : float) (coss : list float) (z1
   end.
 
 (* line 53: the argument of cos for i = 1..m:  pi*(i-0.25)/(npts+.5) *)
+Definition cos_arg (i nf : float) : float := PI_C * (i - 0.25) / (nf + 0.5).
 Fixpoint cos_args_from (cnt : nat) (i nf : float) : list float :=
   match cnt with
   | O => []
-  | S c => PI_C * (i - 0.25) / (nf + 0.5) :: cos_args_from c (i + 1) nf
+  | S c => cos_arg i nf :: cos_args_from c (i + 1) nf
   end.
 Definition cos_args (npts : Z) : list float :=
-  cos_args_from (Z.to_nat ((npts + 1) / 2)) 1 (of_Z npts).
+  cos_args_from (Z.to_nat (m_of npts)) 1 (of_Z npts).
 
 Definition NEWTON_FUEL : nat := 100.
 
@@ -101,22 +128,21 @@ Definition NEWTON_FUEL : nat := 100.
    cgauleg_pywrap.c.  [coss] are the measured values of cos at [cos_args npts]. *)
 Definition gauleg_gen (orig : bool) (x1 x2 : float) (npts : Z) (coss : list float)
   : result (list float * list float) :=
-  if (npts <=? 0)%Z then Err EValue
+  if reject_npts npts then Err EValue
   else
     let n := Z.to_nat npts in
-    let m := Z.to_nat ((npts + 1) / 2) in
+    let m := Z.to_nat (m_of npts) in
     if negb (Nat.eqb (length coss) m) then Err EOther
     else
       let nf := of_Z npts in
-      let xm := (x1 + x2) / 2 in
-      let xl := (x2 - x1) / 2 in
-      match roots orig NEWTON_FUEL n nf coss 0 0 with
+      let xm := xm_of x1 x2 in
+      let xl := xl_of x1 x2 in
+      match roots orig NEWTON_FUEL n nf coss Z1_INIT PP_INIT with
       | None => Err EFuel
       | Some r =>
-        let lo := map (fun zp => xm - xl * fst zp) r in
-        let hi := map (fun zp => xm + xl * fst zp) r in
-        let w := map (fun zp => let z := fst zp in let pp := snd zp in
-                                2 * xl / ((1 - z * z) * pp * pp)) r in
+        let lo := map (fun zp => x_lo xm xl (fst zp)) r in
+        let hi := map (fun zp => x_hi xm xl (fst zp)) r in
+        let w := map (fun zp => w_of xl (fst zp) (snd zp)) r in
         Ok (mirror_fill n lo hi, mirror_fill n w w)
       end.
 
@@ -162,15 +188,23 @@ Definition np_sum (l : list float) : option float :=
    integrand = yvals*wii; return f1*integrand.sum()
    [ys] are the values the user function returned on [func_abscissae] (an input: the function
    is arbitrary user code) *)
+(* the float statements of QGauss.integrate_func / integrate_data (re-translated from util.py
+   by c17_translate.py on every run; numpy arrays are applied elementwise) *)
+Definition f1_of (x1 x2 : float) : float := (x2 - x1) / 2.           (* f1 = (x2 - x1) / 2.0        *)
+Definition f2_of (x1 x2 : float) : float := (x2 + x1) / 2.           (* f2 = (x2 + x1) / 2.0        *)
+Definition xi_of (xxi f1 f2 : float) : float := xxi * f1 + f2.       (* xi = self.xxi * f1 + f2     *)
+Definition integrand_of (yvals wii : float) : float := yvals * wii.  (* integrand = yvals * self.wii *)
+Definition result_of (f1 isum : float) : float := f1 * isum.         (* return f1 * isum            *)
+
 Definition func_abscissae (xxi : list float) (x1 x2 : float) : list float :=
-  let f1 := (x2 - x1) / 2 in
-  let f2 := (x2 + x1) / 2 in
-  map (fun z => z * f1 + f2) xxi.
+  let f1 := f1_of x1 x2 in
+  let f2 := f2_of x1 x2 in
+  map (fun z => xi_of z f1 f2) xxi.
 
 Definition integrate_func (wii : list float) (x1 x2 : float) (ys : list float) : option float :=
-  let f1 := (x2 - x1) / 2 in
-  match np_sum (map2 PrimFloat.mul ys wii) with
-  | Some s => Some (f1 * s)
+  let f1 := f1_of x1 x2 in
+  match np_sum (map2 integrand_of ys wii) with
+  | Some s => Some (result_of f1 s)
   | None => None
   end.
 
@@ -187,10 +221,14 @@ Definition interp_index (x : list float) (u : float) : Z :=
   let xm := if (size - 1 <=? xm)%Z then (size - 2)%Z else xm in
   if (xm <? 0)%Z then 0%Z else xm.
 
+(* return (u - x[xm]) * (v[xmp1] - v[xm]) / (x[xmp1] - x[xm]) + v[xm]   (stat/util.py) *)
+Definition interp_formula (u x_m x_p v_m v_p : float) : float :=
+  (u - x_m) * (v_p - v_m) / (x_p - x_m) + v_m.
+
 Definition interplin1 (v x : list float) (u : float) : float :=
   let xm := interp_index x u in
   let xmp1 := (xm + 1)%Z in
-  (u - fnth x xm) * (fnth v xmp1 - fnth v xm) / (fnth x xmp1 - fnth x xm) + fnth v xm.
+  interp_formula u (fnth x xm) (fnth x xmp1) (fnth v xm) (fnth v xmp1).
 
 Definition fmin_list (l : list float) : float :=
   match l with [] => nan | a :: t => fold_left (fun m x => if x <? m then x else m) t a end.
@@ -211,19 +249,26 @@ Definition integrate_data (xxi wii xv yv : list float) : option float :=
    Row-major flattening of the (ny, nx) arrays: row i (over y), column j (over x). *)
 Definition grid_x (x y : list float) : list float := flat_map (fun _ => x) y.
 Definition grid_y (x y : list float) : list float := flat_map (fun yi => map (fun _ => yi) x) y.
+(* the float statements of QGauss2._setup / integrate_func (re-translated from util.py) *)
+Definition wgrid_of (wxj wyi : float) : float := (1 * wxj) * (1 * wyi).  (* ones(..)*wx[newaxis,:] * (ones(..)*wy[:,newaxis]) *)
+Definition xf1_of (x1 x2 : float) : float := (x2 - x1) / 2.
+Definition xf2_of (x1 x2 : float) : float := (x2 + x1) / 2.
+Definition grid_of (g f1 f2 : float) : float := g * f1 + f2.            (* xgrid = self.xgrid * xf1 + xf2 *)
+Definition result2_of (xf1 yf1 isum : float) : float := xf1 * yf1 * isum.  (* return xf1 * yf1 * isum *)
+
 Definition grid_w (wx wy : list float) : list float :=
-  flat_map (fun wyi => map (fun wxj => (1 * wxj) * (1 * wyi)) wx) wy.
+  flat_map (fun wyi => map (fun wxj => wgrid_of wxj wyi) wx) wy.
 
 Definition func2_abscissae (x y : list float) (x1 x2 y1 y2 : float) : list float * list float :=
-  let xf1 := (x2 - x1) / 2 in let xf2 := (x2 + x1) / 2 in
-  let yf1 := (y2 - y1) / 2 in let yf2 := (y2 + y1) / 2 in
-  (map (fun g => g * xf1 + xf2) (grid_x x y), map (fun g => g * yf1 + yf2) (grid_y x y)).
+  let xf1 := xf1_of x1 x2 in let xf2 := xf2_of x1 x2 in
+  let yf1 := xf1_of y1 y2 in let yf2 := xf2_of y1 y2 in
+  (map (fun g => grid_of g xf1 xf2) (grid_x x y), map (fun g => grid_of g yf1 yf2) (grid_y x y)).
 
 Definition integrate_func2 (wx wy : list float) (x1 x2 y1 y2 : float) (zs : list float) : option float :=
-  let xf1 := (x2 - x1) / 2 in
-  let yf1 := (y2 - y1) / 2 in
-  match np_sum (map2 PrimFloat.mul zs (grid_w wx wy)) with
-  | Some s => Some (xf1 * yf1 * s)
+  let xf1 := xf1_of x1 x2 in
+  let yf1 := xf1_of y1 y2 in
+  match np_sum (map2 integrand_of zs (grid_w wx wy)) with
+  | Some s => Some (result2_of xf1 yf1 s)
   | None => None
   end.
 
